@@ -111,6 +111,23 @@ def interface_sources():
         out.append(S.PRE + 'empty @is_you() { sleep((%s).length); }' % e)
         out.append(S.PRE + 'empty @is_you() { int n[%s]; }' % e)
         out.append(S.PRE + 'int gn[%s];\nempty @is_you() { gn[0] = 1; }' % e)
+    # every operator over operands of every type, including calls of empty and of value-returning functions: the typechecker must
+    # reject what the generator cannot lower (a `??` of two empty calls reaching EmptyAccessor, an array compared with an int, ...)
+    PRE2 = S.PRE + 'empty ef() { write(\'e\'); }\nint nf() { return 1; }\nbyte bf() { return 2; }\nbool of() { return true; }\nstring sf() { return "s"; }\n'
+    OPND = ['5', "'c'", 'true', '"s"', 'iv', 'bv', 'ov', 'sv', 'ia', 'cba', 'oa', 'sa', '[1, 2]', '[]', 'ef()', 'nf()', 'bf()', 'of()', 'sf()', 'ia[0]', 'sv[0]', 'K']
+    BIN = ['??', '+', '/', '<', '==', 'and'] if os.environ.get('VERIF_TIER', 'quick') != 'thorough' else ['??', '+', '-', '*', '/', '%', '<', '<=', '>', '>=', '==', '!=', 'and', 'or']
+    for op, a, b in itertools.product(BIN, OPND, OPND):
+        out.append(PRE2 + 'empty @is_you() { (%s) %s (%s); }' % (a, op, b))
+    for a, b in itertools.product(OPND, OPND):
+        out.append(PRE2 + 'empty @is_you() { int v = %s ?? %s; write(%s ?? %s); if (%s ?? %s) { } }' % (a, b, a, b, a, b))
+    for a in OPND:
+        for un in ('-', '+', 'not '):
+            out.append(PRE2 + 'empty @is_you() { %s%s; int v = %s(%s); }' % (un, a, un, a))
+        for t in S.SC + ['empty', 'int[]', 'byte[]', 'const byte[]', 'bool[]']:
+            out.append(PRE2 + 'empty @is_you() { (%s) is %s; }' % (a, t))
+        out.append(PRE2 + 'empty @is_you() { (%s)[0]; ia[%s]; (%s).length; [%s, %s]; [%s]; sleep([%s][0] is int); }' % (a, a, a, a, a, a, a))
+        out.append(PRE2 + 'empty @is_you() { while (%s) { break; } for (; %s; %s) { break; } try { !truth_is_defeat(%s); } undo { } }' % (a, a, a, a))
+        out.append(PRE2 + 'empty g() { return %s; }\nempty @is_you() { g(); %s; }' % (a, a))
     # generator-assertion probes and entry-point rules
     P = 'empty @is_you() { %s }'
     probes = [
